@@ -1188,8 +1188,8 @@ package saml
 //@    format == ".%09d" ==> firstArgIs(a, ns) && durationParts(abs, h, m, s, ns)
 //@ assert@call[C15] Sprintf #each (format string, a []interface{}) known_formats:
 //@    format == "%dH" || format == "%dM" || format == "%d" || format == ".%09d"
-//@ assert@return[C15] #each uses abs=d Duration, hSeen=reached:h bool, h=h? time.Duration, m=m? time.Duration, s=s? time.Duration, ns=ns? time.Duration exact_decomposition:
-//@    hSeen ==> durationParts(abs, h, m, s, ns) && (abs == d || -abs == d)
+//@ assert@return[C15] #last uses abs=d Duration, h time.Duration, m time.Duration, s time.Duration, ns time.Duration exact_decomposition:
+//@    durationParts(abs, h, m, s, ns) && (abs == d || -abs == d)
 //@ ensures[C15] zero_is_empty: d == 0 ==> result == nil && err == nil
 //@ ensures[C15] no_error: err == nil
 
